@@ -42,6 +42,12 @@ type Op struct {
 	Vary  bool   `json:"vary,omitempty"`  // burst: lengths Len, Len+1, ...
 	To    int    `json:"to,omitempty"`    // write: 0 connected peer, 4 IPv4, 6 IPv6, 46 IPv4 as ::ffff:a.b.c.d ; conn: 4|6|46
 	Fault int    `json:"fault,omitempty"` // write: the link endpoint refuses the frame with 1 no buffer space, 2 would block, 3 aborted
+	// Twin > 0 (inj, IPv4, fragmented): a second datagram of the same size from another
+	// sender (twinPool4[Twin-1]; the first then comes from twinPool4[Snd]) carries the same IP
+	// identification and is cut alike; its fragments arrive between the first one's: A1..Ak-1,
+	// B1..Bk, Ak. Reassembly is per (source, destination, protocol, identification): both
+	// datagrams arrive whole, the second sender's first.
+	Twin int `json:"twin,omitempty"`
 }
 
 type HistCase struct {
@@ -197,6 +203,35 @@ func (h *hist) open(cfg SockCfg) *msock {
 // arrive puts one datagram on the wire and updates the model of the socket
 // it was sent to (if any).
 func (h *hist) arrive(d *dgram, cuts, order []int, chunk int) {
+	h.register(d)
+	if n := h.w.inject(d, cuts, order, chunk); n > 1 {
+		evid.Label("inj:fragmented")
+		if n > 8 {
+			evid.Label("inj:fragmented>8")
+		}
+	}
+}
+
+// arriveTwin: see Op.Twin.
+func (h *hist) arriveTwin(a, b *dgram, cuts []int, chunk int) {
+	h.register(b) // completes first
+	h.register(a)
+	a.ipid = uint16(b.serial*7 + 1)
+	b.ipid = a.ipid
+	proto, pa, _ := a.packets(cuts, nil)
+	_, pb, _ := b.packets(cuts, nil)
+	seq := append(append([][]byte{}, pb...), pa...)
+	if len(pa) >= 2 && len(pb) >= 2 {
+		seq = append(append(append([][]byte{}, pa[:len(pa)-1]...), pb...), pa[len(pa)-1])
+		evid.Label("inj:interleaved-trains-sharing-an-ip-id")
+	}
+	for _, p := range seq {
+		h.w.tap.InjectViews(proto, "", netsim.ChunkLikeLink(p, chunk))
+	}
+}
+
+// register updates the model of the socket the datagram is sent to (if any).
+func (h *hist) register(d *dgram) {
 	h.serial++
 	d.serial = h.serial
 	d.data = pattern(uint32(d.serial), len(d.data))
@@ -228,12 +263,6 @@ func (h *hist) arrive(d *dgram, cuts, order []int, chunk int) {
 		}
 		rcv.q = append(rcv.q, d)
 		rcv.arrSrc = append(rcv.arrSrc, fmt.Sprintf("%x:%d", d.src, d.sport))
-	}
-	if n := h.w.inject(d, cuts, order, chunk); n > 1 {
-		evid.Label("inj:fragmented")
-		if n > 8 {
-			evid.Label("inj:fragmented>8")
-		}
 	}
 }
 
@@ -520,7 +549,16 @@ func (h *hist) step(op Op) *evid.Failure {
 				l = max
 			}
 			d.data = make([]byte, l)
-			if fam == 4 {
+			if fam == 4 && op.K == "inj" && op.Twin > 0 && len(op.Cuts) > 0 {
+				d.src = twinPool4[mod(op.Snd, len(twinPool4))]
+				b := *d
+				b.src = twinPool4[mod(op.Twin-1, len(twinPool4))]
+				if bytes.Equal(b.src, d.src) {
+					b.src = twinPool4[mod(op.Twin, len(twinPool4))]
+				}
+				b.data = make([]byte, l)
+				h.arriveTwin(d, &b, op.Cuts, op.Chunk)
+			} else if fam == 4 {
 				h.arrive(d, op.Cuts, op.Order, op.Chunk)
 			} else {
 				h.arrive(d, nil, nil, op.Chunk)
@@ -811,6 +849,10 @@ func genHist(rt *rapid.T) HistCase {
 				op.Len = genLen(rt, max, false)
 				if fam == 4 && rapid.IntRange(0, 2).Draw(rt, "frag") == 0 {
 					op.Cuts, op.Order = genCuts(rt, 8+op.Len)
+					if rapid.Bool().Draw(rt, "twin") {
+						op.Twin = 1 + rapid.IntRange(0, 7).Draw(rt, "twin-sender")
+						op.Snd = rapid.IntRange(0, 7).Draw(rt, "twin-first")
+					}
 				}
 			}
 		case "write":
